@@ -112,6 +112,35 @@ fn main() {
                 }
             }
         }
+        "miri-batch" => {
+            // second engine: run under `cargo miri run`; Miri's seed decides preemption, weak-memory
+            // loads and spurious weak-CAS failures. No hooks, no baton, no simulated heap.
+            runner::install_panic_hook();
+            sched::set_baton(false);
+            let count: u64 = arg(&args, "--count").and_then(|s| s.parse().ok()).unwrap_or(4);
+            // derive the scenario seed from Miri's own seeded RNG (deterministic per -Zmiri-seed)
+            let base: u64 = match arg(&args, "--scenario-seed").and_then(|s| s.parse().ok()) {
+                Some(b) => b,
+                None => {
+                    use std::hash::{BuildHasher, Hasher};
+                    std::collections::hash_map::RandomState::new().build_hasher().finish()
+                }
+            };
+            let sim = find_sim(&arg(&args, "--sim").unwrap_or_else(|| "cache".into())).expect("unknown sim");
+            let mut code = 0;
+            for i in 0..count {
+                let r = runner::execute(sim, Source::Seeded(choice::run_seed(base, sim.name, i)), false);
+                match r.violation {
+                    Some(v) => {
+                        println!("MIRI-VIOLATION scenario_seed={} index={} class={} detail={}", base, i, v.class, v.detail);
+                        code = 1;
+                        break;
+                    }
+                    None => println!("MIRI-OK scenario_seed={} index={} choices={}", base, i, r.choices.len()),
+                }
+            }
+            code
+        }
         "replay" => {
             init_worker_process();
             let path = args.get(2).expect("replay file");
